@@ -942,6 +942,9 @@ func (w *World) opRefs(op Op) {
 		}
 		wantN++
 		g, ok := got[d]
+		if !ok && op.Mode == "stale-page" {
+			continue // a request that starts in the middle of an outdated chain is not a chain: only "no extra entries" is demanded of it
+		}
 		if !ok {
 			// may legitimately be missing only if it cannot fit into a page on its own
 			if limit > 0 && w.descTooBig(mr.mans[d], d, limit) {
@@ -952,6 +955,8 @@ func (w *World) opRefs(op Op) {
 				how += " [" + why + "]"
 			} else if why := mr.causeOf(subj); why != "" {
 				how += " [subject: " + why + "]"
+			} else if mr.respLost[subj] {
+				how += " [referrers response collected by policy while artifacts remain]"
 			}
 			if strings.Contains(how, "[") {
 				defer func() { mr.resyncOrphans(); w.x.resync() }()
